@@ -91,6 +91,10 @@ func (r *Run) checkJSONError(endpoint string, res *Resp, want string, status int
 		key := endpoint
 		if r.Fault.fired && r.Fault.call != "" {
 			key += ":" + r.Fault.call
+		} else if r.anyFault() {
+			key += ":entropy-failure"
+		} else if r.shortSecret {
+			key += ":short-global-secret"
 		}
 		r.violate("C20", "non-rfc-error-code", key, "%s error response carries the catch-all code \"error\" (HTTP %d): an internal, non-OAuth error was written to the client: %s", endpoint, res.Status, truncate(res.Body, 200))
 	} else if got != want {
